@@ -3,24 +3,32 @@ package main
 import (
 	"fmt"
 	"os"
-	"os/exec"
 
+	"verif.local/mc/fsck"
 	"verif.local/mc/sopenv"
 	"verif.local/mc/txn"
+	"github.com/sharedcode/sop"
 )
 
+func rep(tag string) {
+	r := fsck.Check(sopenv.Dir)
+	for n, s := range r.Stores {
+		fmt.Println(tag, n, "items", s.Items, "orphanblobs", s.OrphanBlobs, "problems", s.Problems)
+	}
+}
+
 func main() {
+	place := os.Args[1]
 	sopenv.FreshDir(1)
 	defer sopenv.Cleanup()
-	specs := []txn.StoreSpec{
-		{Name: "a", Slot: 2, Unique: true, Place: "node", Initial: []txn.KV{{1, "a"}, {2, "b"}, {3, "c"}}},
-		{Name: "s", Slot: 2, Unique: true, Place: "segment", Initial: []txn.KV{{1, "a"}, {2, "b"}, {3, "c"}}},
-		{Name: "p", Slot: 4, Unique: true, Place: "active", Initial: []txn.KV{{1, "a"}}},
-	}
+	specs := []txn.StoreSpec{{Name: "p", Slot: 4, Unique: true, Place: place, Initial: []txn.KV{{1, "a"}, {2, "b"}, {3, "c"}}}}
 	if err := txn.Build(sopenv.Bg, specs); err != nil {
 		panic(err)
 	}
-	out, _ := exec.Command("bash", "-c", "cd "+sopenv.Dir+" && find . -type f | sort | head -60 && echo && cat a/storeinfo.txt && echo && cat storelist.txt; echo; f=$(find s -type f ! -name '*.reg' ! -name '*.txt' | head -2); for x in $f; do echo $x; cat $x; echo; done").CombinedOutput()
-	fmt.Println(string(out))
-	_ = os.Stdout
+	rep("built")
+	for _, ops := range [][]txn.Op{{{Kind: "update", Store: "p", K: 1, V: "new"}}, {{Kind: "remove", Store: "p", K: 2}}, {{Kind: "add", Store: "p", K: 4, V: "n4"}}, {{Kind: "update", Store: "p", K: 1, V: "new2"}}} {
+		r := txn.Run(sopenv.Bg, txn.Prog{Name: "t", Mode: sop.ForWriting, Ops: ops, End: "commit"}, nil)
+		fmt.Println(ops, "committed", r.Committed, r.EndErr)
+		rep("  after")
+	}
 }
